@@ -309,6 +309,15 @@ def r_reader_writer(F, R, cat=None):
         from expr import inlining
         with inlining():
             forms = [tree(ctx, o) for o in ctx.org.local(0)]
+            if any(nd[0] == "call" and nd[1][0] in ("Option", "Result") and nd[1][1] in (
+                    "map_or_else", "map_or", "map", "and_then", "unwrap_or_else", "ok", "as_ref") for t_ in forms for nd in walk(t_)):
+                # the arms are closures handed to a combinator: read what they return
+                from expr import expand, nobb as _nb, NONE as _NONE
+                ex = set()
+                for t_ in forms:
+                    ex |= {x for x in expand(F, t_) if x != _NONE}
+                if ex:
+                    forms = sorted(ex, key=repr)
         p0 = ("place", b.key, ("arg", 2), ("f:0",))
         p1 = ("place", b.key, ("arg", 2), ("f:1",))
         pw = ("place", b.key, ("arg", 2), ())
@@ -324,6 +333,8 @@ def r_reader_writer(F, R, cat=None):
                         ops = [x for x in node[2] if x in (p0, p1)]
                         if len(ops) == 2:
                             pairs.append(ops)
+                    if node[0] in ("agg", "call") and len(node) > 2 and isinstance(node[2], tuple) and pw in node[2]:
+                        pairs.append([p0, p1])  # the index handed on whole: both components, in order
                 arith = [nd for nd in walk(t) if nd[0] == "bin" and (p0 in nd or p1 in nd)]
                 ok = len(pairs) == 1 and pairs[0] == [p0, p1] and not arith
                 # the storage that is read is the storage push measured
@@ -603,22 +614,29 @@ def r_columns(F, R, cat=None):
         n += 1
         R.saw(b)
         ctx, effs = cat.effects(b)
+        if any(e.tag == ("Push", "push") and (None, ()) in self_field_targets(e, ctx) and e.ctx is ctx for e in effs) and \
+                not any(e.cls == "append" and any(f in ("inner", "indices") for (f, _r) in self_field_targets(e, ctx)) for e in effs):
+            continue  # hands the row to another push form of the same region: R-FORWARD judges the hand-over
         # per-cell push: target self.inner[*], value an element of the item
         cell = [e for e in effs if e.tag == ("Push", "push") and ("inner", ("[]",)) in self_field_targets(e, ctx)]
-        ok_cell = len(cell) == 1
+        # (one push, or one per arm of a lookup of the column -- `match columns.get_mut(i) { Some(c) => c.push(v),
+        #  None => { create; columns[i].push(v) } }` -- never two on one path)
+        ok_cell = len(cell) >= 1 and not any(x is not y and x.ctx is y.ctx and (x.bb == y.bb or y.bb in reach_strict(x.ctx.body, x.bb))
+                                            for x in cell for y in cell)
         aligned = False
         src_desc = ""
         if ok_cell:
-            e = cell[0]
-            vals = set()
-            for o in e.argorigins[1]:
-                vals |= base_places(e.ctx, o)
-            src_desc = sorted(describe(c, o) for (c, o) in vals)
-            from_item = all(c is ctx and r == ("arg", 2) and "[]" in p for (c, (r, p)) in vals) and bool(vals)
-            # both the column and the value come out of one zip / enumerate over the item
-            recv_raw = e.ctx.org.operand(e.term["args"][0])
-            val_raw = e.ctx.org.operand(e.term["args"][1])
-            aligned = from_item and (same_pairing(e.ctx, recv_raw, val_raw) or counter_pairing(e.ctx, e.term, val_raw))
+            aligned = True
+            for e in cell:
+                vals = set()
+                for o in e.argorigins[1]:
+                    vals |= base_places(e.ctx, o)
+                src_desc = sorted(describe(c, o) for (c, o) in vals)
+                from_item = all(c is ctx and r == ("arg", 2) and "[]" in p for (c, (r, p)) in vals) and bool(vals)
+                # both the column and the value come out of one zip / enumerate over the item
+                recv_raw = e.ctx.org.operand(e.term["args"][0])
+                val_raw = e.ctx.org.operand(e.term["args"][1])
+                aligned = aligned and from_item and (same_pairing(e.ctx, recv_raw, val_raw) or counter_pairing(e.ctx, e.term, val_raw))
         # the row of cell indices is handed, as one item, to self.indices and its result returned
         rowpush = [e for e in effs if e.tag == ("Push", "push") and ("indices", ()) in self_field_targets(e, ctx)
                    and e.ctx is ctx]
@@ -636,6 +654,10 @@ def r_columns(F, R, cat=None):
                     guard_ok = True
                 # `for _ in self.inner.len()..n { create }`: one column per missing position
                 if f[0] == "variant" and range_from_inner_len(f[1]) is not None:
+                    guard_ok = True
+                # the lookup of the column came back empty: `columns.get_mut(i)` is None
+                if f[0] == "variant" and isinstance(f[1], tuple) and f[1][0] == "call" and f[1][1][1] in ("get_mut", "get") and \
+                        "inner" in show(f[1]) and (f[2] == "0" or (isinstance(f[2], tuple) and f[2][0] == "not" and "1" in f[2][1])):
                     guard_ok = True
             # `(self.inner.len()..n).for_each(|_| create)`: the same loop as an iterator pipeline
             if e.ctx is not ctx and e.ctx.parent is not None and e.ctx.consumer and \
